@@ -268,7 +268,7 @@ class Models(object):
 
     def builtin(self, name):
         table = {
-            "len": m_len, "min": m_min, "max": m_max, "isinstance": m_isinstance, "issubclass": m_issubclass,
+            "len": m_len, "min": m_min, "max": m_max, "divmod": m_divmod, "isinstance": m_isinstance, "issubclass": m_issubclass,
             "str": m_str, "int": m_int, "dict": m_dict, "range": m_range, "enumerate": m_enumerate, "type": m_type, "list": m_list,
             "iter": m_iter, "sum": m_unsupported("sum"), "any": m_unsupported("any"), "getattr": m_unsupported("getattr"),
             "dir": m_unsupported("dir"), "set": m_unsupported("set"), "hash": m_unsupported("hash"),
@@ -624,6 +624,21 @@ def m_min(ex, st, fr, args, kwargs):
     if len(args) == 2 and all(isinstance(a, VT) and a.t.sort == INT for a in args):
         return [(st, "ok", VT(tm.imin(args[0].t, args[1].t)))]
     raise Unsupported("min")
+
+
+def m_divmod(ex, st, fr, args, kwargs):
+    """divmod(a, b) for ints: (a // b, a % b); ZeroDivisionError for b == 0 (python semantics encoded for b > 0 only)"""
+    if len(args) == 2 and all(isinstance(a, VT) and a.t.sort == INT for a in args):
+        a, b = args
+        res = []
+        for (s2, zero) in ex.branch(st, tm.eq(b.t, 0)):
+            if zero:
+                res.extend(ex.raise_(s2, "ZeroDivisionError"))
+            else:
+                ex.emit("%s::divisor-positive@divmod" % fr.qual, s2, tm.lt(0, b.t), kind="A", text="divisor of divmod is positive")
+                res.append((s2, "ok", VTuple([VT(tm.pydiv(a.t, b.t)), VT(tm.pymod(a.t, b.t))])))
+        return res
+    raise Unsupported("divmod")
 
 
 def m_max(ex, st, fr, args, kwargs):
